@@ -24,7 +24,7 @@ def atom_text(d, g):
     return rm.r_pattern(p, rm.Plain())
 
 
-from ..accmodel import Model      # noqa: E402  (accumulator over atoms: alternatives, exclusions, star flag, constants)
+from ..accmodel import Model, atom_matcher      # noqa: E402  (accumulator over atoms: alternatives, exclusions, star flag, constants)
 
 
 class Sequences(Stage):
@@ -46,11 +46,14 @@ class Sequences(Stage):
             initial = d.choice([dict(raw='!'), dict(raw='*'), dict(alts=[atom_text(d, g)], excl=['*']), dict(alts=['*.*'], excl=[]), dict(alts=['*'], excl=[]), dict(raw='!')])
         cmds = []
         for _ in range(d.int(1, 8)):
-            k = d.weighted([(1, 'star'), (1, 'bang'), (2, 'bad'), (7, 'alts'), (6, 'excl'), (1, 'star+'), (5, 'both')])
+            k = d.weighted([(1, 'star'), (1, 'bang'), (3, 'bad'), (7, 'alts'), (6, 'excl'), (1, 'star+'), (5, 'both')])
             if k == 'star': cmds.append(dict(raw='*'))
             elif k == 'bang': cmds.append(dict(raw='!'))
             elif k == 'bad':
-                if d.chance(0.5):
+                earlier = [c for c in cmds if c.get('malformed')]
+                if earlier and d.chance(0.5):
+                    cmds.append(dict(earlier[-1]))      # the very same malformed text again: reported again
+                elif d.chance(0.5):
                     cmds.append(dict(raw=d.choice(MALFORMED), malformed=True))
                 else:
                     # a well-formed alternative with a character outside ASCII put somewhere into it: accepted or reported, never anything else
@@ -167,7 +170,7 @@ class Sequences(Stage):
         def learn(atoms):
             for a in atoms:
                 if a not in parsed:
-                    parsed[a] = matcher.parse(a).simplify()
+                    parsed[a] = atom_matcher(matcher, a)
 
         def current(w):
             return s.ctl.display_matcher if w == 'filter' else s.ctl.stop_matcher
